@@ -91,14 +91,34 @@ def session_fields(repo=None):
         a = assigns.get(target, [])
         if len(a) != 1 or not (isinstance(a[0].value, ast.Name) and a[0].value.id == local):
             raise TranslateError("%s: load_session does not end with `%s = %s`" % (path, target, local))
-    ctor = _gs_calls(load)
-    ref = _gs_calls(_method(cls, "_increase_ip_for_target"))
-    if len(ctor) != 1 or len(ref) != 1 or _kw(ctor[0]) != _kw(ref[0]):
+    # the GuessStructure of the loaded state: the expression assigned to self.cur_guess (a constructor call,
+    # or a private helper `def h(self): return GuessStructure(..)`, which the translator inlines) must be
+    # the one _increase_ip_for_target uses
+    def resolve(e, depth=0):
+        if isinstance(e, ast.Call) and isinstance(e.func, ast.Attribute) and isinstance(e.func.value, ast.Name) \
+                and e.func.value.id == "self" and not e.args and not e.keywords and depth < 3:
+            h = translate_omen_gen.expression_helper(cls, "MarkovCracker", e.func.attr)
+            if h is not None:
+                return resolve(h, depth + 1)
+        return e
+
+    def new_guess(fn):
+        out = [n for n in ast.walk(fn) if isinstance(n, ast.Assign) and len(n.targets) == 1
+               and ast.unparse(n.targets[0]) == "self.cur_guess"
+               and not (isinstance(n.value, ast.Constant) and n.value.value is None)]
+        if len(out) != 1:
+            raise TranslateError("%s: %s: self.cur_guess is not assigned exactly once" % (path, fn.name))
+        e = resolve(out[0].value)
+        if not (isinstance(e, ast.Call) and isinstance(e.func, ast.Name) and e.func.id == "GuessStructure"):
+            raise TranslateError("%s: %s: self.cur_guess is not set to a GuessStructure(..)" % (path, fn.name))
+        return out[0], _kw(e)
+
+    g, kw_load = new_guess(load)
+    _g2, kw_ref = new_guess(_method(cls, "_increase_ip_for_target"))
+    if kw_load != kw_ref:
         raise TranslateError("%s: load_session does not rebuild the GuessStructure from the loaded cursors with the "
                              "constructor call of _increase_ip_for_target" % path)
-    g = assigns.get("self.cur_guess", [])
-    if len(g) != 1 or g[0].value is not ctor[0] or not (max(l for l, _c, _t in loads) < g[0].lineno
-                                                        < assigns["self.cur_guess.parse_tree"][0].lineno):
+    if not (max(l for l, _c, _t in loads) < g.lineno < assigns["self.cur_guess.parse_tree"][0].lineno):
         raise TranslateError("%s: load_session: the GuessStructure must be built after the loads and before the overwrites" % path)
     return {"omen_save_order": save_order, "omen_load_order": load_order}
 
